@@ -95,6 +95,31 @@ def _gen_tagname(ns, name):
     return name
 
 
+def _cleanup_namespaces(elt, nsmap):
+    """Like etree.cleanup_namespaces(), but declares the prefixes that are
+    used inside xsi:type attribute values at the top of the document. These
+    come from ``nsmap``, the prefix map of the interface. lxml does not know
+    about QNames in attribute values, so it neither declares such a prefix nor
+    keeps its declaration when cleaning up."""
+
+    top_nsmap = {}
+    for e in elt.iter():
+        if len(e.attrib) == 0:
+            continue
+
+        xsi_type = e.attrib.get(XSI_TYPE)
+        if xsi_type is not None and ':' in xsi_type:
+            prefix = xsi_type.split(':', 1)[0]
+            if prefix in nsmap:
+                top_nsmap[prefix] = nsmap[prefix]
+
+    if len(top_nsmap) > 0:
+        etree.cleanup_namespaces(elt, top_nsmap=top_nsmap,
+                                          keep_ns_prefixes=list(top_nsmap))
+    else:
+        etree.cleanup_namespaces(elt)
+
+
 class SchemaValidationError(Fault):
     """Raised when the input stream could not be validated by the Xml Schema."""
 
@@ -651,7 +676,7 @@ class XmlDocument(SubXmlBase):
                                                   result_inst, ns, **kwargs)
 
         if self.cleanup_namespaces and ctx.out_document is not None:
-            etree.cleanup_namespaces(ctx.out_document)
+            _cleanup_namespaces(ctx.out_document, self.app.interface.nsmap)
 
         self.event_manager.fire_event('after_serialize', ctx)
 
